@@ -24,14 +24,17 @@ func syncScenarios(r *mon.Run, label string) []Scenario {
 	idx := 0
 	for a := 0; a <= maxLen; a++ {
 		for b := 0; b <= maxLen; b++ {
-			for variant := 0; variant < 4; variant++ {
+			for variant := 0; variant < 6; variant++ {
 				for _, peers := range []bool{false, true} {
 					if !r.Thorough() {
 						// quick: variants 0 and 1 everywhere, 2 and 3 on a diagonal sample
-						if variant >= 2 && (a+b)%3 != variant-2 {
+						if (variant == 2 || variant == 3) && (a+b)%3 != variant-2 {
 							continue
 						}
-						if peers && variant != 1 {
+						if peers && variant != 1 && variant != 5 {
+							continue
+						}
+						if variant == 5 && !peers {
 							continue
 						}
 					}
@@ -108,6 +111,7 @@ func runSyncCheck(prop, monitor, tier, replay string) int {
 		r.Count("bug_reads_monitored", res.Reads)
 		r.Count("bugs", res.Bugs)
 		r.Count("identity_pull_observations", res.IdentityPulls)
+		r.Count("mid_schedule_convergence_checks(same ops, different heads)", res.PairChecks)
 		for k, v := range res.PairStates {
 			r.Count("pair_state/"+k, v)
 		}
